@@ -600,4 +600,23 @@ theorem callerDecode_join (file : Bytes) (line : Int) : callerDecode (file ++ 58
   simp only [List.take_left' rfl]
   rw [e, List.drop_left' (by simp), intOf_fmtInt]
 
+theorem digit_ne_zero : ∀ d ∈ List.range 10, d ≠ 0 → UInt8.ofNat (48 + d) ≠ 48 := by decide
+
+/-- the trimmed fraction never ends in '0' -/
+theorem frac_no_trailing_zero (p v : Nat) (h : fracDigits p v false ≠ []) : (fracDigits p v false).getLast h ≠ 48 := by
+  induction p generalizing v with
+  | zero => simp [fracDigits] at h
+  | succ p ih =>
+    by_cases h0 : v % 10 = 0
+    · have e : fracDigits (p + 1) v false = fracDigits p (v / 10) false := by simp [fracDigits, h0]
+      have h' : fracDigits p (v / 10) false ≠ [] := by rw [← e]; exact h
+      have := ih (v / 10) h'
+      simp only [e]
+      exact this
+    · have hb : (v % 10 != 0) = true := by simp [h0]
+      have e : fracDigits (p + 1) v false = fracDigits p (v / 10) true ++ [UInt8.ofNat (48 + v % 10)] := by
+        simp [fracDigits, hb]
+      simp only [e, List.getLast_append, List.getLast_singleton]
+      exact digit_ne_zero _ (List.mem_range.mpr (Nat.mod_lt _ (by decide))) h0
+
 end ZapVerif.SubEnc
